@@ -171,13 +171,13 @@ def generate(unit):
             i += 1
             continue
         kv = parse_kv(line.strip()[len("//@extract") :])
-        blk = {"expect": None, "sig": None, "contract": [], "rules": [], "loops": None, "loop": {}, "attr": [], "keepattrs": False, "body": None}
+        blk = {"expect": [], "sig": None, "contract": [], "rules": [], "loops": None, "loop": {}, "attr": [], "keepattrs": False, "body": None}
         i += 1
         cur = None
         while i < len(tmpl) and tmpl[i].strip() != "//@end":
             s = tmpl[i].strip()
             if s.startswith("//@expect"):
-                blk["expect"] = s[len("//@expect") :].strip()
+                blk["expect"].append(s[len("//@expect") :].strip())  # several lines = alternatives
                 cur = None
             elif s.startswith("//@sig"):
                 blk["sig"] = s[len("//@sig") :].strip()
@@ -218,8 +218,8 @@ def generate(unit):
         item_start, sig_start, b, end = locate_item(src, mask, kv["item"], kv.get("within"))
         kind = kv["item"].split()[0]
         real_sig = rscan.norm(src[sig_start:b])
-        if blk["expect"] is not None and rscan.norm(blk["expect"]) != real_sig:
-            raise Undecided(f"lost anchor: signature of {kv['item']} in {kv['file']} is `{real_sig}`, unit expects `{rscan.norm(blk['expect'])}`")
+        if blk["expect"] and real_sig not in [rscan.norm(e) for e in blk["expect"]]:
+            raise Undecided(f"lost anchor: signature of {kv['item']} in {kv['file']} is `{real_sig}`, unit expects `{' | '.join(rscan.norm(e) for e in blk['expect'])}`")
         first_line = len(out) + 1
         out.append(f"// ---- extracted from {kv['file']}:{rscan.line_of(src, sig_start)} ({kv['item']}" + (f" in {kv['within']}" if kv.get("within") else "") + ")")
         for a in blk["attr"]:
